@@ -271,10 +271,16 @@ def b_dict(I, a, k, node):
     if a:
         M.dict_update(I, d, a[0], node)
     open_ = k.pop('**open', None)
+    unknown_ = k.pop('**unknown', None)
     for key, v in k.items():
         d.items[key] = v
     if open_ is not None:
         M.dict_update(I, d, open_, node)
+    if unknown_ is not None:
+        for key, v in list(d.items.items()):
+            d.items[key] = Unk('overridable:%s' % key, taint=tj(v, unknown_), src=('override', v, unknown_))
+        d.open = True
+        d.taint |= unknown_.taint
     return d
 
 
